@@ -147,8 +147,13 @@ def q1_formulas(ctx):
                     cs = [cond_str(d, v) for d, v in resolve_conds(c, conds)]
                     if not any(x.startswith('on_left') and x.endswith('!=[0]') for x in cs):
                         continue
-                    parm = [x for x in cs if re.search(arm, x) and x.endswith('!=[0]')]
-                    if not parm:
+                    if arm.startswith('"'):
+                        # kind tested by name: the alternative is selected when nothing on its path excludes type_name(other) == arm
+                        # (an or-pattern `"PERCENT" | "DURATION"` leaves only the negated tests of the earlier arms on the merged edge)
+                        kinds = [(m.group(1), x.endswith('!=[0]')) for x in cs for m in [re.search(r'type_name\(other\), ("[^"]*")\)', x)] if m]
+                        if any((k == arm) != pos for k, pos in kinds if pos or k == arm):
+                            continue
+                    elif not [x for x in cs if re.search(arm, x) and x.endswith('!=[0]')]:
                         continue
                     found += 1
                     txt = render(a)
